@@ -192,6 +192,11 @@ fn main() {
         world::cleanup_scratch();
         std::process::exit(0);
     }
+    if args[1] == "C18X" {
+        props::c18::xproc_child(&args[2..]);
+        world::cleanup_scratch();
+        std::process::exit(0);
+    }
     if args[1] == "C12ROT" {
         props::c12::rotation_worker(&args[2]);
         world::cleanup_scratch();
